@@ -39,11 +39,14 @@ RC_TEXT = {1: "monitor failure", 97: "deadlock (every thread blocked or idle-pol
            98: "livelock (step budget exhausted)", -999: "wall-clock timeout"}
 
 
-def campaign(res, broken, tier, prop, scenario, sources, param_gen, validate, sizes=None):
+def campaign(res, broken, tier, prop, scenario, sources, param_gen, validate, sizes=None, reject_is_failure=None):
     """param_gen(rng) -> params list; validate(log: t3.Log, params) -> (rejects:[{...}], transitions:set, nlines:int).
     Explores programs x schedules.  A monitor failure / deadlock / crash is a concrete violation (replay = seed,
     mode, params).  A model rejection breaks the T3 correspondence: the exploration then continues without
-    validation (search budget) looking for a concrete failure."""
+    validation (search budget) looking for a concrete failure.
+    reject_is_failure(reject:dict) -> str|None: for specification automata whose guards are the property's own clauses
+    (Model.Sched), the search also validates; a real execution that the automaton rejects at such a guard is reported as
+    the failing history (replay = the schedule), described by the returned text."""
     sizes = sizes or {"quick": (14, 3), "thorough": (150, 8), "search": (120, 6)}
     exe = build(scenario, sources)
     rng = C.Rng(res.seed * 104729 + sum(map(ord, prop)))
@@ -54,7 +57,13 @@ def campaign(res, broken, tier, prop, scenario, sources, param_gen, validate, si
     os.makedirs(logdir, exist_ok=True)
     log = os.path.join(logdir, "%s-%d.log" % (prop, os.getpid()))
 
+    found_rejects = []
+    reject_patience = [0]
+
     def sweep(nprog, nsched, do_validate):
+        # a monitor failure / deadlock is the better witness: after the first rejected execution keep looking for one
+        # for a while, then settle for the rejected execution
+        reject_patience[0] = stats["runs"] + (nprog * nsched) // 3
         for p in range(nprog):
             params = param_gen(rng)
             pseed = 1 + rng.below(10**6)
@@ -70,6 +79,19 @@ def campaign(res, broken, tier, prop, scenario, sources, param_gen, validate, si
                     last = err.strip().split("\n")[-1] if err.strip() else ""
                     rep["stderr"] = err[-600:]
                     return ("concrete", "%s: %s" % (RC_TEXT.get(rc, "scenario crashed rc=%d" % rc), last), rep)
+                if not do_validate and reject_is_failure:
+                    try:
+                        rejects, _, _ = validate(_t3.Log(log), params)
+                    except Exception:
+                        rejects = []
+                    for rj in rejects:
+                        why = reject_is_failure(rj)
+                        if why:
+                            rep["rejects"] = rejects
+                            found_rejects.append(("concrete", why, dict(rep)))
+                            break
+                    if found_rejects and len(found_rejects) >= 1 and stats["runs"] >= reject_patience[0]:
+                        return found_rejects[0]
                 if do_validate:
                     lg = _t3.Log(log)
                     rejects, trans, nlines = validate(lg, params)
@@ -91,6 +113,8 @@ def campaign(res, broken, tier, prop, scenario, sources, param_gen, validate, si
         if r and r[0] == "reject":
             broken.append({"kind": "T3-correspondence", "what": r[1], "replay": r[2]})
             r = sweep(*sizes["search"], False)
+    if r is None and found_rejects:
+        r = found_rejects[0]
     if r and r[0] == "concrete":
         res.violation(r[1], r[2])
     res.add_cov(programs_and_schedules=sizes["search" if broken else tier], runs=stats["runs"],
